@@ -1,5 +1,6 @@
 """C12 Built-in semirings obey their algebra and documented defaults (E5: real methods on proxies)."""
 import itertools
+import random
 import re
 from fractions import Fraction
 
@@ -294,7 +295,7 @@ def parse_expr(s):
     return r, dens
 
 
-def symbolic_items(tier):
+def symbolic_items(tier, seed=0):
     S = SemiringSymbolic()
     base = [("0", Rat(z3.RealVal(0))), ("1", Rat(z3.RealVal(1))), ("a", Rat(z3.Real("a"))), ("b", Rat(z3.Real("b"))),
             ("c", Rat(z3.Real("c"))), ("0.5", Rat(z3.RealVal("1/2")))]
@@ -320,6 +321,28 @@ def symbolic_items(tier):
             if s2 != "0":
                 ops.append(("normalize(%s,%s)" % (d1, d2), S.normalize(s1, s2), R1.div(R2), dn1 + dn2 + [R2]))
                 ops.append(("normalize(%s,%s)" % (d2, d1), S.normalize(s2, s1), R2.div(R1), dn1 + dn2 + [R1]))
+    # seeded random operation trees of depth 3-4 (products of sums, sums of products, nested quotients)
+    rng = random.Random("c12/%s" % seed)
+
+    def tree(depth):
+        if depth == 0 or rng.random() < 0.15:
+            x, X = rng.choice(base)
+            return x, S.value(x), X, []
+        op = rng.choice(["plus", "plus", "times", "times", "negate", "normalize"])
+        d1, s1, R1, n1 = tree(depth - 1)
+        if op == "negate":
+            return "negate(%s)" % d1, S.negate(s1), Rat(z3.RealVal(1)).sub(R1), n1
+        d2, s2, R2, n2 = tree(depth - 1)
+        if op == "plus":
+            return "plus(%s,%s)" % (d1, d2), S.plus(s1, s2), R1.add(R2), n1 + n2
+        if op == "times":
+            return "times(%s,%s)" % (d1, d2), S.times(s1, s2), R1.mul(R2), n1 + n2
+        if s2 == "0":
+            return d1, s1, R1, n1
+        return "normalize(%s,%s)" % (d1, d2), S.normalize(s1, s2), R1.div(R2), n1 + n2 + [R2]
+
+    for i in range(1500 if tier == "quick" else 20000):
+        ops.append(tree(3 if i % 2 else 4))
     return ops
 
 
@@ -431,7 +454,7 @@ def main(tier, seed):
                        "SemiringSymbolic: operands are the symbols a,b,c and constants 0, 1, 0.5 and results of <= 1 "
                        "earlier operation (depth 2)", "MPE semirings: laws on the value component; tie-breaking of the state component not asserted"]
     laws = all_laws()
-    sitems = symbolic_items(tier)
+    sitems = symbolic_items(tier, seed)
     chunks = [sitems[i::16] for i in range(16)]
     run.bounds = {"laws": len(laws), "symbolic_expressions": len(sitems), "value_range": "[0,1] closed (AD sums <= 1)",
                   "max_paths_per_law": 64}
